@@ -6,6 +6,7 @@
 // dispatch, or process / recv), shadowed by a ghost FIFO of (tag, len, endpoint, local address); payload
 // byte i of a datagram with tag t is pat(t, i).  Then ONE operation under test, then the whole queue is
 // drained through the public API and compared with the ghost.
+#[cfg(all(feature = "proto-ipv4", feature = "medium-ip"))]
 #[allow(dead_code, unused_imports, unused_variables, unused_mut, unused_assignments)]
 mod v_socket_udp {
     use super::*;
@@ -808,9 +809,13 @@ mod v_socket_udp {
     // A datagram whose explicit local address (or the socket's bound address) has the other IP version than
     // its destination is accepted by `send`; `dispatch` (i.e. `Interface::poll`) must not panic on it.
     // @harness props=C09 cfg=KG tier=q to=600 mem=8 unwind=17 opts=nomem covers=2 funcs=udp::Socket::send_slice;udp::Socket::dispatch;IpRepr::new bounds=one_datagram_<=9_bytes;_local/bound_address_and_destination_of_different_IP_versions
-    #[cfg(feature = "proto-ipv6")]
     #[kani::proof]
     pub(crate) fn udp_version_mismatch() {
+        #[cfg(feature = "proto-ipv6")]
+        udp_version_mismatch_body();
+    }
+    #[cfg(feature = "proto-ipv6")]
+    fn udp_version_mismatch_body() {
         env!(dev, iface, cx);
         sock!(s, 1, 0, 2, PC);
         let bound = bind_any(&mut s);
@@ -839,4 +844,15 @@ mod v_socket_udp {
         g.pop();
         drain_tx(&mut s, cx, &g, &bound, hop);
     }
+}
+
+// Configurations without IPv4 or without medium-ip (this file is spliced into every configuration of a
+// run): the harnesses above are not run there; the replay dispatcher only needs their names.
+#[cfg(not(all(feature = "proto-ipv4", feature = "medium-ip")))]
+#[allow(dead_code)]
+mod v_socket_udp {
+    macro_rules! stubs {
+        ($($n:ident)*) => { $(pub(crate) fn $n() {})* };
+    }
+    stubs!(udp_send udp_send_with udp_dispatch udp_poll_at udp_padding_left_behind_tx udp_process_recv udp_recv_truncated udp_peek udp_padding_left_behind_rx udp_accepts_bind_close udp_version_mismatch udp_must_fail);
 }
